@@ -11,7 +11,15 @@ import Inkayaku.Props.Translated.Magic
 import Inkayaku.Props.Translated.MoveBits
 import Inkayaku.Props.Translated.Check
 import Inkayaku.Props.Translated.ZobristXor
+import Inkayaku.Props.Translated.Demo
+import Inkayaku.Props.Translated.MakeUnmakeCommon
+import Inkayaku.Props.Translated.Make
+import Inkayaku.Props.Translated.Unmake
 import Inkayaku.Props.Translated.MakeUnmake
+import Inkayaku.Props.Translated.GenCommon
+import Inkayaku.Props.Translated.GenMake
+import Inkayaku.Props.Translated.GenUnmake
+import Inkayaku.Props.Translated.GenXor
 import Inkayaku.Props.Translated.Generated
 /-! Umbrella module: the equivalence theorems between the Rust functions translated on every run (`Gen/Rs/*.lean`, by
 `/verif/translator`) and the hand-written model live in `Props/Translated/*.lean`, one file per Rust source / topic.
@@ -24,10 +32,17 @@ The first ten targets are listed in `Props/Translated/Basic.lean`; round 2 added
 | constants.rs masks / shifts / piece codes, `impl Move` getters, setters, predicates | `PIECE_MOVED_MASK` …, `Move.get_piece_moved` … (`MoveBits`) | `Gen.BoardConsts`, `Board.decode` (= `Move.f`), `Board.encode` | `rs_move_masks`, `rs_move_shifts`, `rs_piece_consts`, `rs_move_decode_eq`, `rs_move_encode_eq`, `rs_move_roundtrip`, `rs_is_attack_eq`, `rs_is_promotion_eq` (`MoveBits.lean`) |
 | `Bitboard::{is_valid, is_current_in_check, is_in_check, _is_in_check_by_bits, _is_square_in_check}`, `PlayerState::{kings, …, full_occupancy}`, `opposite_color` | `Bitboard.is_valid` … (`Check`) | `Board.isValid`, `isCurrentInCheck`, `inCheck`, `squareInCheck` | `rs_is_square_in_check_eq`, `rs_is_in_check_by_bits_eq`, `rs_is_current_in_check_eq`, `rs_is_in_check_eq`, `rs_is_valid_eq` (`Check.lean`) |
 | `Bitboard::zobrist_xor`                                         | `Bitboard.zobrist_xor` (`ZobristXor`)              | `Zobrist.xorOf`                    | `rs_zobrist_xor_eq`, `rs_zobrist_xor_move` (`ZobristXor.lean`) |
-| `Bitboard::{make, unmake, make_castle, unmake_castle}`, `get_active_and_passive_mut`, `PlayerState::{occupancy_ref, kings_ref, rooks_ref, pawns_ref}` | `Bitboard.make`, `.unmake`, `.make_castle` … (`MakeUnmake`) | `Board.makeF`, `unmakeF` (`make`, `unmake`) | `rs_make_eq`, `rs_unmake_eq`, `rs_make_move_eq`, `rs_unmake_move_eq`, `rs_make_castle_eq` (`MakeUnmake.lean`) |
+| `Bitboard::{make, make_castle}`, `get_active_and_passive_mut`, `PlayerState::{occupancy_ref, kings_ref, rooks_ref, pawns_ref}` | `Bitboard.make`, `.make_castle` … (`MakeUnmake`) | `Board.makeF` (`make`) | `rs_make_castle_eq`, `rs_make_eq`, `rs_make_move_eq` (`Make.lean`; shared helpers, `rs_is_white_turn_eq`: `MakeUnmakeCommon.lean`) |
+| `Bitboard::{unmake, unmake_castle}` (same borrows / index functions) | `Bitboard.unmake`, `.unmake_castle` (`MakeUnmake`) | `Board.unmakeF` (`unmake`) | `rs_unmake_castle_eq`, `rs_unmake_eq`, `rs_unmake_move_eq` (`Unmake.lean`; does not import `Make.lean` and vice versa) |
 
-`Props/Translated/Generated.lean` discharges the panic hypotheses of `rs_make_eq`, `rs_unmake_eq`, `rs_zobrist_xor_eq` for every move
-the generator emits on a `WF.wf` board: `rs_make_generated`, `rs_unmake_generated`, `rs_zobrist_xor_generated`, `rs_is_valid_after_make`, and the end-to-end
-`rs_is_move_legal_generated` for `Bitboard::is_move_legal` (`make; is_valid; unmake`; generated module `Legal`).
+`Props/Translated/GenMake.lean`, `GenUnmake.lean`, `GenXor.lean` discharge the panic hypotheses of `rs_make_eq`, `rs_unmake_eq`,
+`rs_zobrist_xor_eq` for every move the generator emits on a `WF.wf` board: `rs_make_generated`, `rs_is_valid_after_make` (`GenMake.lean`),
+`rs_unmake_generated` and the end-to-end `rs_is_move_legal_generated` for `Bitboard::is_move_legal` (`make; is_valid; unmake`; generated
+module `Legal`) (`GenUnmake.lean`), `rs_zobrist_xor_generated` (`GenXor.lean`); shared model-only helpers in `GenCommon.lean`, `Demo.lean`.
+
+MODULE GRANULARITY.  The check of a property builds only the theorem modules it lists, and a module that fails to build fails all
+its theorems.  Hence one theorem file per Rust function (group): a change of `unmake` breaks `Unmake.lean`, `GenUnmake.lean` (and the
+umbrellas `MakeUnmake.lean`, `Generated.lean`, this file) but not `Make.lean`, `GenMake.lean`, `GenXor.lean`; a change of `zobrist_xor`
+breaks `ZobristXor.lean`, `GenXor.lean` only.  `MakeUnmake.lean` and `Generated.lean` only import the split files (compatibility).
 
 Mutation sanity check of all of these: `/verif/translator/mutation_check.sh`. -/
